@@ -18,7 +18,6 @@ package gc
 
 // ---- every removal is guarded by the decision for the same container (C17) ----
 // Removed: files removed so far; PortsCleaned: container ids whose port mappings were cleaned
-//@ ghost Removed mset[string]
 //@ ghost PortsCleaned mset[string]
 //@ func (*flannelGC).cleanPortFunc trusted
 //@   modifies PortsCleaned
